@@ -56,6 +56,11 @@ def gen_cases(ctx):
                 mk(3, rand_circuit(rng, 3, rng.randrange(0, 3), us, allow=("op",)) + [g] + rand_circuit(rng, 3, rng.randrange(0, 2), us, allow=("op",)))
         mk(3, [{"g": "param", "kind": rng.choice(["RX", "RY", "RZ", "P"]), "vals": [float2bits(bad)] * 3, "ts": [1], "cs": [0]}])
     for c in cases[n0:]: c["refuse"] = True
+    # longer programs (33 .. 70 statements, odd and even counts): statement ORDER matters for non-commuting gates, and a lowering that
+    # works in blocks or in parallel only shows on circuits of this length
+    for L in ((33, 41, 64, 57) if not ctx.thorough() else (33, 35, 41, 57, 64, 65, 97, 129)):
+        n = rng.randrange(2, 5)
+        mk(n, rand_circuit(rng, n, L, us, allow=("op",)))
     # random circuits
     for _ in range(80 if not ctx.thorough() else 400):
         n = rng.randrange(1, 6)
